@@ -40,6 +40,11 @@ CHECKS.update({
    text='All ordered pairs of a family that contains every single-component difference (incl. IPv4/IPv6 by value, IPvFuture, absent vs empty, absolute vs rootless) are compared in both character types against component-wise identity of the reference decomposition; all pairs of objects made by parse/normalise/makeOwner/resolve/shorten are compared against identity of the recomposed text; symmetry, reflexivity, transitivity on all triples of a subset, NULL arguments; arguments are write-protected.',
    ref='DESIGN.md section 3, C11', note=TRUST),
 })
+CHECKS.update({
+ 'C07': dict(cat='model_checking', tech='explicit-state breadth-first search over URI objects with the real API calls as transition relation, canonical state hashing, invariant evaluated in every state',
+   text='Breadth-first search on the implementation itself: states are URI objects (canonical key without addresses), transitions are real calls (normalize under 9 masks, makeOwner, resolve as reference/base against 8 bases x 2 options, shorten as source/base x 2 modes, write-and-reparse); from ~600-2500 initial parsed URIs to depth 4 (quick) / 7 (thorough) every reached state must recompose to a valid URI reference that re-parses to the same scheme, authority parts, path text, query and fragment, with a well-formed structure.',
+   ref='DESIGN.md section 3, C07', note=TRUST + '; states are rebuilt by replaying operation histories on fresh objects'),
+})
 NOT_YET = {}
 def main():
     props = [json.loads(l) for l in open(os.path.join(VERIF, 'properties.jsonl'))]
